@@ -31,6 +31,9 @@ type wireCfg struct {
 	// fecStart: the first sequence id the sender's encoder uses (0 unless the
 	// scenario placed it near the wrap)
 	fecStart uint32
+	// cleanUntilMs > 0: until this virtual time the network neither loses nor
+	// reorders (used to measure uninterrupted runs for C16)
+	cleanUntilMs int64
 }
 
 type wgroup struct {
@@ -54,10 +57,12 @@ type wireFlow struct {
 	oobs      [][]byte
 
 	nDgram, nPush, nAck, nWask, nWins, nData, nParity, nOOB, nRetrans int64
-	nGroupsVerified, nGroupsNoParity, nGroupsPartial                int64
-	maxLen                                                          int
-	minSeq, maxSeq                                                  uint32
-	reported                                                        map[string]bool
+	nGroupsVerified, nGroupsNoParity, nGroupsPartial                  int64
+	maxLen                                                            int
+	minSeq, maxSeq                                                    uint32
+	reported                                                          map[string]bool
+	lastSeq                                                           uint32
+	runLen, maxRun                                                    int
 }
 
 func newWireFlow(cfg wireCfg, viol func(key, detail string)) *wireFlow {
@@ -84,7 +89,7 @@ func (f *wireFlow) bad(key, format string, args ...any) {
 }
 
 // observe decodes one datagram handed to the PacketConn.
-func (f *wireFlow) observe(data []byte) {
+func (f *wireFlow) observe(data []byte, nowMs int64) {
 	f.mu.Lock()
 	defer f.mu.Unlock()
 	f.nDgram++
@@ -172,6 +177,18 @@ func (f *wireFlow) observe(data []byte) {
 				f.bad("C09 FEC sequence id repeated within a wrap period", "seqid %d", seqid)
 			}
 			f.seenSeq[seqid] = struct{}{}
+			// longest run of consecutive ids emitted while the network is clean
+			if f.cfg.cleanUntilMs > 0 && nowMs < f.cfg.cleanUntilMs {
+				if f.runLen > 0 && seqid == f.lastSeq+1 {
+					f.runLen++
+				} else {
+					f.runLen = 1
+				}
+				f.lastSeq = seqid
+				if f.runLen > f.maxRun {
+					f.maxRun = f.runLen
+				}
+			}
 			base := seqid - uint32(pos)
 			g := f.groups[base]
 			if g == nil {
@@ -351,4 +368,10 @@ func (f *wireFlow) tally(rec *vrec) {
 	rec.count("wire_fec_groups_parity_partly_seen", f.nGroupsPartial)
 	rec.count("wire_distinct_nonces", int64(len(f.seenNonce)))
 	rec.maxCount("wire_max_datagram_len", int64(f.maxLen))
+}
+
+func (f *wireFlow) longestRun() int {
+	f.mu.Lock()
+	defer f.mu.Unlock()
+	return f.maxRun
 }
